@@ -1,11 +1,70 @@
 import PycfModel.Basic.Wire
 import PycfModel.Model.Glob
+import PycfModel.Model.Actions
+import PycfModel.Model.Expand
+import PycfModel.Model.Catalogue
 /-
 Line protocol driver: one JSON operation per input line, one JSON result per output line.
 Executes the implementation models (I); proves nothing.
 -/
 open Lean (Json)
 open PycfModel PycfModel.Wire
+
+def strOf (a : List Char) : Json := .str (String.ofList a)
+
+def digestWith (m : Nat) (xs : List (List Char)) : Nat :=
+  xs.foldl (fun h a => a.foldl (fun h c => (h * m + c.toNat + 1) % 2147483647)
+    ((h * m) % 2147483647)) 7
+
+def digest (xs : List (List Char)) : String :=
+  s!"{digestWith 1000003 xs}-{digestWith 999983 xs}"
+
+def listResult (full : Bool) (xs : List (List Char)) : Json :=
+  if full then Json.mkObj [("list", .arr (xs.map strOf).toArray)]
+  else Json.mkObj [("n", .num ⟨xs.length, 0⟩), ("digest", .str (digest xs)),
+    ("head", .arr ((xs.take 3).map strOf).toArray), ("tail", .arr ((xs.drop (xs.length - 3)).map strOf).toArray)]
+
+def actionValOf? (j : Json) (k : String) : Except String (Option (Option Actions.ActionVal)) := do
+  -- none = not action text; some none = absent/null
+  match ← getJ? j k with
+  | none => pure (some none)
+  | some .null => pure (some none)
+  | some v => match Expand.toActionVal v with
+    | some av => pure (some (some av))
+    | none => pure none
+
+def stmtOf (j : Json) : Except String (Option Actions.Stmt) := do
+  let allow ← getBool j "allow"
+  match ← actionValOf? j "action", ← actionValOf? j "notaction" with
+  | some a, some n => pure (some ⟨allow, a, n⟩)
+  | _, _ => pure none
+
+def cat := Catalogue.catalogue
+
+def runExpand (j : Json) : Except String Json := do
+  let api ← getStr j "api"
+  let full := (getBool j "full").toOption.getD false
+  let notText := Json.mkObj [("outside_domain", .str "value is not action text")]
+  match api with
+  | "module" =>
+    let v ← getJ j "value"
+    let neg ← getBool j "not"
+    match Expand.toActionVal v with
+    | some av => pure (listResult full (if neg then Actions.expandNot cat av.toList else Actions.expand cat av.toList))
+    | none => pure notText
+  | "statement" =>
+    match ← actionValOf? j "action", ← actionValOf? j "notaction" with
+    | some a, some n => pure (listResult full (Actions.stmtSpec cat a n))
+    | _, _ => pure notText
+  | "allowed" | "iam" =>
+    match j.getObjVal? "stmts" with
+    | .ok (.arr ss) =>
+      let stmts ← ss.toList.mapM stmtOf
+      if stmts.any Option.isNone then pure notText else
+      let stmts := stmts.filterMap id
+      pure (listResult full (if api == "allowed" then Actions.allowedSpec cat stmts else Actions.iamSpec cat stmts))
+    | _ => .error "stmts missing"
+  | _ => .error s!"unknown api {api}"
 
 def runOp (j : Json) : Except String Json := do
   let op ← getStr j "op"
@@ -17,6 +76,12 @@ def runOp (j : Json) : Except String Json := do
     let ci ← getBool j "ci"
     let r := if ci then Glob.gmatchCI p.toList s.toList else Glob.gmatchCS p.toList s.toList
     pure (Json.mkObj [("match", .bool r)])
+  | "expand" => runExpand j
+  | "xexpand" =>
+    let t ← getJ j "tree"
+    pure (Json.mkObj [("tree", ofJ (Expand.walk cat t))])
+  | "catalogue" =>
+    pure (listResult ((getBool j "full").toOption.getD false) cat)
   | _ => .error s!"unknown op {op}"
 
 partial def loop (hin : IO.FS.Stream) (hout : IO.FS.Stream) : IO Unit := do
